@@ -40,5 +40,5 @@ def absorb(v, res, rule, level_keys=True):
     v.coverage["rule"] = rule
     v.coverage.setdefault("samples", []).extend(res.get("samples", []))
     v.coverage.setdefault("distribution", {}).update({k: n for k, n in st.items() if k not in ("evaluations", "distinct_nontrivial")})
-    for viol in res.get("violations", []):
+    for viol in (res.get("violations") or []):
         v.violation(viol["signature"], viol["what"], viol["replay"])
